@@ -34,6 +34,7 @@ Next ==
        \/ \E n \in WriteSizes : Write(1, n, 0)
        \/ \E s \in {S_IN, S_OUT, S_ERR} : Close(1, s)
        \/ Wait(1, 0)
+       \/ (life[1] = "run" /\ Stop(1, KillNow))   \* stopping the child ends the child, not the streams: what it wrote is still there to read
        \/ \E mk \in {EV_IN, EV_IN + EV_OUT + EV_ERR + EV_EXIT} : Poll(<<<<1, mk>>>>, 0)
   \/ life[1] \in {"run", "exited"} /\ Mode = "drain" /\
        \/ \E s \in {S_OUT, S_ERR} : Close(1, s)
